@@ -36,14 +36,7 @@ func selfSigned() tls.Certificate {
 	return tls.Certificate{Certificate: [][]byte{der}, PrivateKey: key}
 }
 
-func freeAddr() string {
-	ln, err := hx.Listen("tcp", "127.0.0.1:0")
-	if err != nil {
-		panic(err)
-	}
-	defer ln.Close()
-	return ln.Addr().String()
-}
+func freeAddr() string { return hx.FreeAddr() }
 
 // TestC08Listeners: the same header contract through fabio's own listeners,
 // for every listener kind that ends in the HTTP handler (http, https, the
